@@ -50,3 +50,35 @@ pub fn list(a: &[String]) {
     c.send_list(l).expect("send_list");
     println!("wire={}", hex(&c.into_inner().out));
 }
+
+/// A user-defined argument whose renderer emits scripted chunks: the j-th invocation appends chunk j (the last
+/// chunk repeats).  Renderers may be stateful - `render(&self)` only promises to append.
+struct Scripted { chunks: Vec<Vec<u8>>, calls: std::cell::Cell<usize> }
+impl mpd_protocol::command::Argument for Scripted {
+    fn render(&self, buf: &mut bytes::BytesMut) {
+        let j = self.calls.get().min(self.chunks.len() - 1);
+        self.calls.set(self.calls.get() + 1);
+        buf.extend_from_slice(&self.chunks[j]);
+    }
+}
+
+/// seq <name> then per add_argument call: <nchunks> <hex chunk>...  Prints add{i}=ok|err and cmd{i}=<wire of a clone>.
+pub fn seq(a: &[String]) {
+    let name = String::from_utf8(args_bytes(&a[0..1])[0].clone()).unwrap();
+    let mut cmd = match Command::build(&name) { Ok(c) => c, Err(_) => { println!("build=err"); return; } };
+    println!("build=ok");
+    let mut i = 1;
+    let mut k = 0;
+    while i < a.len() {
+        let n: usize = a[i].parse().unwrap();
+        let chunks = args_bytes(&a[i + 1..i + 1 + n]);
+        i += 1 + n;
+        let arg = Scripted { chunks, calls: std::cell::Cell::new(0) };
+        match cmd.add_argument(&arg) { Ok(()) => println!("add{k}=ok"), Err(_) => println!("add{k}=err") }
+        println!("calls{k}={}", arg.calls.get());
+        let mut c = conn();
+        c.send(cmd.clone()).expect("send");
+        println!("cmd{k}={}", hex(&c.into_inner().out));
+        k += 1;
+    }
+}
